@@ -29,11 +29,15 @@ def main():
     report = {"property": pid, "demo_package": pkg}
     rc1, _, o1 = go_tests(wt, run="TestSeed|TestDemo|Seed", pkg=pkg)
     report["demo_with_change"] = "FAIL" if rc1 != 0 else "PASS"
-    sh("git stash", cwd=wt)
+    # git stash is shared between worktrees of one repository: reverse-apply the delivered patch instead
+    patch = os.path.abspath(os.path.join(outdir, "patch.diff"))
+    rcr, outr = sh("git apply -R %s" % patch, cwd=wt)
+    assert rcr == 0, "cannot reverse patch in worktree: " + outr
     rc2, _, o2 = go_tests(wt, run="TestSeed|TestDemo|Seed", pkg=pkg)
     report["demo_without_change"] = "FAIL" if rc2 != 0 else "PASS"
     _, base, _ = go_tests(wt)
-    sh("git stash pop", cwd=wt)
+    rca, outa = sh("git apply %s" % patch, cwd=wt)
+    assert rca == 0, "cannot re-apply patch: " + outa
     _, withc, _ = go_tests(wt)
     report["existing_tests_same"] = (base == withc)
     report["existing_tests"] = [" ".join(x) for x in withc]
